@@ -486,7 +486,8 @@ def worker_thread_obligations(ctx):
     ctx.check(bool(sets) and bool(stor) and all(cfgr.dominates(list(stor), i) for i in sets), f'{rx.qualname}:reply stored before the event is set', rx.node,
               'entry[2] = ... dominates entry[1].set()',
               'the waiting caller is woken without (or before) its reply being stored: it reads "connection closed before reply"', rx)
-    pops = {i for c in calls_in(rx.node) if call_attr(c) == 'pop' and src(c.func.value) == 'self.active_requests' for i in cfgr.node_of(c)}
+    from sa.lib import deep_calls
+    pops = {i for c, owner, site in deep_calls(m, rx, lambda c: call_attr(c) == 'pop' and src(c.func.value) == 'self.active_requests') for i in cfgr.node_of(site)}
     ctx.check(bool(pops) and all(cfgr.dominates(list(pops), i) for i in sets), f'{rx.qualname}:the reply key is taken out of active_requests', rx.node,
               'a pop of active_requests lies on every path to the set()', 'a reply is matched without removing its key: every later request with that key is parked for ever', rx)
     for t in cfgr.nodes:
